@@ -50,7 +50,7 @@ def s_surface(draw):
     rd = draw(st.one_of(gen.ufloat(0, 44.5), gen.ufloat(0, 44.5), st.sampled_from([0.0, 44.5, 12.0])))
     rb = draw(st.one_of(gen.ufloat(0, 360), gen.ufloat(0, 360), st.sampled_from([0.0, 90.0, 180.0, 270.0])))
     return {"lat0": lat1, "lon0": lon1, "lat1": lat2, "lon1": lon2, "t0": t0, "t1": t1, "rdist": rd, "rbrg": rb,
-            "tc0": draw(st.integers(5, 8)), "tc1": draw(st.integers(5, 8)), "noref": draw(gen.uint(0, 29)) == 0, "as_datetime": draw(gen.uint(0, 3)) == 0, "int_receiver": draw(gen.uint(0, 5)) == 0,
+            "tc0": draw(st.integers(5, 8)), "tc1": draw(st.integers(5, 8)), "noref": draw(gen.uint(0, 29)) == 0, "as_datetime": draw(st.sampled_from([0, 0, 0, 1, 2])), "hc": draw(gen.hexcase), "int_receiver": draw(gen.uint(0, 5)) == 0,
             "ctx_bits0": draw(gen.ubits(15)), "ctx_bits1": draw(gen.ubits(15)), "ctx_icao": draw(gen.addresses),
             "df": draw(st.sampled_from([17, 17, 18]))}
 
@@ -74,10 +74,11 @@ def chk_surface(case, note):
     b0, b1 = case["ctx_bits0"], case["ctx_bits1"]
     me0 = cpr.me_surface(case["tc0"], 0, e0["yz"], e0["xz"], b0 & 127, (b0 >> 7) & 1, (b0 >> 8) & 127, 0)
     me1 = cpr.me_surface(case["tc1"], 1, e1["yz"], e1["xz"], b1 & 127, (b1 >> 7) & 1, (b1 >> 8) & 127, 0)
-    m0 = frames.tohex(frames.df17(case["ctx_icao"], me0, ca=b0 & 7, df=case["df"]), 112)
-    m1 = frames.tohex(frames.df17(case["ctx_icao"], me1, ca=b0 & 7, df=case["df"]), 112)
-    t0, t1 = case["t0"], case["t1"]
-    T0, T1 = cg.as_time(t0, case.get("as_datetime", False)), cg.as_time(t1, case.get("as_datetime", False))
+    m0 = frames.tohex(frames.df17(case["ctx_icao"], me0, ca=b0 & 7, df=case["df"]), 112, case.get("hc", "U"))
+    m1 = frames.tohex(frames.df17(case["ctx_icao"], me1, ca=b0 & 7, df=case["df"]), 112, case.get("hc", "U"))
+    dtm = case.get("as_datetime", 0)
+    T0, T1 = cg.as_time(case["t0"], dtm), cg.as_time(case["t1"], dtm)
+    t0, t1 = cg.time_key(case["t0"], dtm), cg.time_key(case["t1"], dtm)
     if case["noref"]:
         for args in ((m0, m1, t0, t1), (m0, m1, t0, t1, None, 3.0), (m0, m1, t0, t1, 3.0, None)):
             r = call(pms.adsb.position, *args)
